@@ -79,6 +79,7 @@ class FrameCollector:
         :param frame:  the frame data
         """
         self.__has_time_exceeded = False
+        self.__unwrapped = {}
         self.__source = source
         self.__frame = frame
 
@@ -121,6 +122,7 @@ class FrameCollector:
         """
         current_frame = self.__frame
         collected_frames = []
+        self.__unwrapped = {}
         # while we still have frames process them
         while current_frame is not None:
             # process the current frame
@@ -128,6 +130,14 @@ class FrameCollector:
                                         self.__source.should_collect_vars(len(collected_frames)))
             collected_frames.append(frame)
             current_frame = current_frame.f_back
+        # the locals dict of a frame can itself be a value another variable refers to (the locals of a module frame
+        # are its globals()), so put back the unwrapped entries that are referenced - else those ids do not resolve
+        if len(self.__unwrapped) > 0:
+            referenced = {child.vid for variable in var_lookup.values() for child in variable.children}
+            referenced.update(var_id.vid for frame in collected_frames for var_id in frame.variables)
+            for vid, variable in self.__unwrapped.items():
+                if vid in referenced:
+                    var_lookup[vid] = variable
         return collected_frames, var_lookup
 
     def _process_frame(self, var_lookup: Dict[str, Variable], var_cache: VariableCacheProvider,
@@ -153,6 +163,7 @@ class FrameCollector:
             if variable.vid in var_lookup:
                 variable_val = var_lookup[variable.vid]
                 del var_lookup[variable.vid]
+                self.__unwrapped[variable.vid] = variable_val
                 var_ids = variable_val.children
         short_path, app_frame = self.parse_short_name(filename)
         return StackFrame(filename, short_path, func_name, lineno, var_ids, class_name,
